@@ -139,12 +139,15 @@ func vobInt(v Value) int {
 	return -999
 }
 
-const vobKeyLo, vobKeyHi = -3, 140 // key range: contains two keys 128 apart (same 7-bit hash tag)
-
-func vobKey(name string) int {
-	k := rt.IntRange(name, vobKeyLo, vobKeyHi)
-	rt.Assume(vobKeyLo <= k && k <= vobKeyHi)
-	return k
+// vobKey: an operation key, enumerated (concrete per path, so that hashing is concrete) over
+// -1, 0 .. L+4 and two keys whose 7-bit hash tags collide with L+1 and L+2.
+func vobKey(name string, L int) int {
+	c := []int{-1}
+	for i := 0; i <= L+4; i++ {
+		c = append(c, i)
+	}
+	c = append(c, L+1+128, L+2+128)
+	return c[rt.Pick(name, len(c))]
 }
 
 func vobVal(name string) int {
@@ -156,10 +159,12 @@ func vobVal(name string) int {
 // vobBuild builds an arbitrary object state with L list members and M named integer members
 // through the real Add and Set, and the corresponding model. A valid state has no named
 // integer key in [0, L] (such a key would be in the list).
-func vobBuild(maxL, maxM int) (*SuObject, *vobM) {
+func vobBuild[C interface {
+	Add(Value)
+	Put(*Thread, Value, Value)
+}](ob C, maxL, maxM int) (C, *vobM) {
 	L := rt.Pick("L", maxL+1)
 	M := rt.Pick("M", maxM+1)
-	ob := &SuObject{}
 	m := &vobM{}
 	for i := 0; i < L; i++ {
 		v := vobVal("lv")
@@ -167,45 +172,29 @@ func vobBuild(maxL, maxM int) (*SuObject, *vobM) {
 		m.list = append(m.list, v)
 	}
 	for j := 0; j < M; j++ {
-		k := vobKey("nk")
-		rt.Assume(k < 0 || k > L)
+		cands := []int{-1, L + 1, L + 3, L + 1 + 128}
+		if rt.Thorough() {
+			cands = []int{-1, L + 1, L + 2, L + 4, L + 1 + 128}
+		}
+		k := cands[rt.Pick("nk", len(cands))]
 		for _, k0 := range m.nk {
 			rt.Assume(k != k0)
 		}
 		v := vobVal("nv")
-		ob.Set(IntVal(k), IntVal(v))
+		ob.Put(nil, IntVal(k), IntVal(v))
 		m.nk = append(m.nk, k)
 		m.nv = append(m.nv, v)
 	}
 	return ob, m
 }
 
-// vobCheck compares the real object with the model: sizes, every list slot, and an arbitrary
-// probe key (which covers every named key, every list index and every absent key).
+// vobCheck compares the real object with the model: the sizes, every list slot and every named
+// member (with equal sizes this is equality of the two maps).
 func vobCheck(label string, ob *SuObject, m *vobM) {
 	ls := ob.ListSize()
 	rt.Observe(label+".listsize", ls)
 	rt.Observe(label+".namedsize", ob.NamedSize())
-	rt.Assert(label+"/listsize", ls == len(m.list))
-	rt.Assert(label+"/namedsize", ob.NamedSize() == len(m.nk))
 	rt.Assert(label+"/size", ob.Size() == len(m.list)+len(m.nk))
-	for i := 0; i < len(m.list) && i < ls; i++ {
-		rt.Assert(label+"/list", vobInt(ob.ListGet(i)) == m.list[i])
-	}
-	p := vobKey(label + ".probe")
-	g := ob.GetIfPresent(nil, IntVal(p))
-	mv, ok := m.get(p)
-	if ok {
-		rt.Assert(label+"/member", g != nil && vobInt(g) == mv)
-	} else {
-		rt.Assert(label+"/absent", g == nil)
-	}
-	rt.Assert(label+"/haskey", ob.HasKey(IntVal(p)) == ok)
-}
-
-// vobCheckLight: sizes and list only (used for the second object of a copy pair)
-func vobCheckLight(label string, ob *SuObject, m *vobM) {
-	ls := ob.ListSize()
 	rt.Assert(label+"/listsize", ls == len(m.list))
 	rt.Assert(label+"/namedsize", ob.NamedSize() == len(m.nk))
 	for i := 0; i < len(m.list) && i < ls; i++ {
@@ -233,6 +222,7 @@ const (
 	vopSlice
 	vopCopy
 	vopDefault
+	vopGet
 	vopN
 )
 
@@ -245,25 +235,25 @@ func vobStep(tag string, op int, ob *SuObject, m *vobM) {
 		ob.Add(IntVal(v))
 		m.add(v)
 	case vopInsert:
-		at, v := vobKey(tag+"k"), vobVal(tag+"v")
+		at, v := vobKey(tag+"k", len(m.list)), vobVal(tag+"v")
 		ob.Insert(at, IntVal(v))
 		m.insert(at, v)
 	case vopSet:
-		k, v := vobKey(tag+"k"), vobVal(tag+"v")
+		k, v := vobKey(tag+"k", len(m.list)), vobVal(tag+"v")
 		ob.Set(IntVal(k), IntVal(v))
 		m.set(k, v)
 	case vopPut:
 		// the key is given as an equal decimal number
-		k, v := vobKey(tag+"k"), vobVal(tag+"v")
+		k, v := vobKey(tag+"k", len(m.list)), vobVal(tag+"v")
 		ob.Put(nil, SuDnum{Dnum: dnum.FromInt(int64(k))}, IntVal(v))
 		m.set(k, v)
 	case vopDelete:
-		k := vobKey(tag + "k")
+		k := vobKey(tag+"k", len(m.list))
 		r := ob.Delete(nil, IntVal(k))
 		rt.Observe(tag+"deleted", r)
 		rt.Assert("delete/result", r == m.delete(k))
 	case vopErase:
-		k := vobKey(tag + "k")
+		k := vobKey(tag+"k", len(m.list))
 		r := ob.Erase(nil, IntVal(k))
 		rt.Observe(tag+"erased", r)
 		rt.Assert("erase/result", r == m.erase(k))
@@ -345,50 +335,270 @@ func vobStep(tag string, op int, ob *SuObject, m *vobM) {
 		} else {
 			mc.list = nil
 		}
-		vobCheckLight("copy", c, mc)
+		vobCheck("copy", c, mc)
 		// the two objects are independent: change one, then the other
-		k, v := vobKey(tag+"k"), vobVal(tag+"v")
+		k, v := vobKey(tag+"k", len(m.list)), vobVal(tag+"v")
 		if rt.Bool(tag + "copyfirst") {
 			c.Set(IntVal(k), IntVal(v))
 			mc.set(k, v)
-			vobCheckLight("copy/changed-copy", c, mc)
-			vobCheckLight("copy/original-kept", ob, m)
+			vobCheck("copy/changed-copy", c, mc)
+			vobCheck("copy/original-kept", ob, m)
 			ob.Add(IntVal(v))
 			m.add(v)
 		} else {
 			ob.Set(IntVal(k), IntVal(v))
 			m.set(k, v)
-			vobCheckLight("copy/changed-original", ob, m)
-			vobCheckLight("copy/copy-kept", c, mc)
+			vobCheck("copy/changed-original", ob, m)
+			vobCheck("copy/copy-kept", c, mc)
 			c.Add(IntVal(v))
 			mc.add(v)
 		}
-		vobCheckLight("copy/second-change", c, mc)
+		vobCheck("copy/second-change", c, mc)
 	case vopDefault:
 		v := vobVal(tag + "v")
 		ob.SetDefault(IntVal(v))
-		k := vobKey(tag + "k")
+		k := vobKey(tag+"k", len(m.list))
 		g := ob.Get(nil, IntVal(k))
 		mv, ok := m.get(k)
 		if !ok {
 			mv = v
 		}
 		rt.Assert("default/get", vobInt(g) == mv)
+	case vopGet:
+		// an arbitrary key: a list index, a named key or an absent key
+		p := vobKey(tag+"k", len(m.list))
+		g := ob.GetIfPresent(nil, IntVal(p))
+		mv, ok := m.get(p)
+		rt.Observe(tag+"present", g != nil)
+		if ok {
+			rt.Assert("get/member", g != nil && vobInt(g) == mv)
+		} else {
+			rt.Assert("get/absent", g == nil && ob.Get(nil, IntVal(p)) == nil)
+		}
+		rt.Assert("get/haskey", ob.HasKey(IntVal(p)) == ok)
 	}
 }
 
 // C36 one step: from an arbitrary object state (0..3 list members, 0..2 named integer members)
 // one operation with arbitrary arguments gives the state and result of the list+map model.
 //
-//symgo:harness prop=C36 tier=quick shards=8 tshards=16 timeout=300 ttimeout=1700 bounds=state:0..3_list_members+0..2_named_int_members(thorough:0..4+0..3);keys_in_-3..140;values_0..5;one_operation_of_16_kinds_with_symbolic_arguments outside=string_keys;objects_over_4+3_members;concurrent_objects
+//symgo:harness prop=C36 tier=quick shards=16 tshards=16 timeout=300 ttimeout=1700 bounds=state:0..3_list_members+0..2_named_int_members_with_keys_in_{-1,L+1,L+3,L+129}_(thorough:0..4+0..3,keys_in_{-1,L+1,L+2,L+4,L+129});operation_keys_enumerated_in_{-1..L+4,L+129,L+130};values_symbolic_in_0..5;one_operation_of_17_kinds outside=string_keys;larger_objects;concurrent_objects
 func VerifC36Step() {
 	maxL, maxM := 3, 2
 	if rt.Thorough() {
 		maxL, maxM = 4, 3
 	}
-	ob, m := vobBuild(maxL, maxM)
+	ob, m := vobBuild(ob0(), maxL, maxM)
 	op := rt.Pick("op", vopN)
 	vobStep("a.", op, ob, m)
 	rt.Reach("stepped")
 	vobCheck("after", ob, m)
+}
+
+func ob0() *SuObject { return &SuObject{} }
+
+// C36 two steps (thorough): two key-taking mutators in sequence from a small state.
+//
+//symgo:harness prop=C36 tier=thorough tshards=16 ttimeout=1700 bounds=state:0..1_list_members+0..1_named_member;two_operations_from_{Add,Insert,Set,Delete,Erase,PopFirst}_with_enumerated_keys;values_symbolic_in_0..5
+func VerifC36TwoSteps() {
+	ob, m := vobBuild(ob0(), 1, 1)
+	ops := []int{vopAdd, vopInsert, vopSet, vopDelete, vopErase, vopPopFirst}
+	vobStep("a.", ops[rt.Pick("op1", len(ops))], ob, m)
+	vobStep("b.", ops[rt.Pick("op2", len(ops))], ob, m)
+	rt.Reach("stepped")
+	vobCheck("after", ob, m)
+}
+
+// C36 arbitrary keys: Set / Delete / Get with a key that is any 64-bit integer (symbolic, so the
+// hash and the slot search are decided by the solver) on a small state.
+//
+//symgo:harness prop=C36 tier=quick shards=4 timeout=300 bounds=state:0..2_list_members+0..1_named_member;key_any_int64_(symbolic);one_of_Set,Delete,Erase,Insert_then_Get
+func VerifC36AnyKey() {
+	ob, m := vobBuild(ob0(), 2, 1)
+	k := rt.Int("k")
+	v := vobVal("v")
+	switch rt.Pick("op", 4) {
+	case 0:
+		ob.Set(IntVal(k), IntVal(v))
+		m.set(k, v)
+		rt.Assert("anykey/get-after-set", vobInt(ob.Get(nil, IntVal(k))) == v)
+	case 1:
+		r := ob.Delete(nil, IntVal(k))
+		rt.Observe("deleted", r)
+		rt.Assert("anykey/delete-result", r == m.delete(k))
+		if !m.inList(k) {
+			rt.Assert("anykey/gone-after-delete", ob.GetIfPresent(nil, IntVal(k)) == nil)
+		}
+	case 2:
+		r := ob.Erase(nil, IntVal(k))
+		rt.Observe("erased", r)
+		rt.Assert("anykey/erase-result", r == m.erase(k))
+		rt.Assert("anykey/gone-after-erase", ob.GetIfPresent(nil, IntVal(k)) == nil)
+	case 3:
+		ob.Insert(k, IntVal(v))
+		m.insert(k, v)
+	}
+	rt.Reach("done")
+	vobCheck("anykey", ob, m)
+}
+
+// vobLess: the value order used by the sort model: numbers by value, then strings by byte
+func vobLess(r1, v1, r2, v2 int) bool { return r1 < r2 || (r1 == r2 && v1 < v2) }
+
+// C36 sort: Sort orders the list by value comparison and is stable: members that compare equal
+// but are distinguishable (the same number held as small int, as 64-bit int and as decimal)
+// keep their relative order; numbers sort before strings.
+//
+//symgo:harness prop=C36 tier=quick shards=8 timeout=300 ttimeout=1700 bounds=lists_of_2..3_members_(thorough_4);each_a_number_0..2_held_as_small_int|int64|decimal_or_a_1-byte_string outside=user_supplied_comparison_functions
+func VerifC36SortStable() {
+	n := 2 + rt.Pick("n", 2)
+	if rt.Thorough() {
+		n = 2 + rt.Pick("n4", 3)
+	}
+	in := make([]Value, n)
+	rank := make([]int, n)
+	val := make([]int, n)
+	for i := range in {
+		kind := rt.Pick("kind", 4)
+		if kind < 3 {
+			v := rt.IntRange("v", 0, 2)
+			rt.Assume(0 <= v && v <= 2)
+			val[i] = v
+			switch kind {
+			case 0:
+				in[i] = SuInt(v)
+			case 1:
+				in[i] = SuInt64{int64: int64(v)}
+			case 2:
+				in[i] = SuDnum{Dnum: dnum.FromInt(int64(v))}
+			}
+		} else {
+			s := rt.Str("s", 1)
+			rank[i], val[i] = 1, int(s[0])
+			in[i] = SuStr(s)
+		}
+	}
+	ob := NewSuObject(append([]Value{}, in...))
+	ob.Set(SuInt(-1), SuInt(7)) // a named member, to stay
+	ob.Sort(nil, False)
+	rt.Reach("sorted")
+	// model: stable insertion sort of the indexes
+	idx := make([]int, n)
+	for i := range idx {
+		idx[i] = i
+	}
+	for i := 1; i < n; i++ {
+		for j := i; j > 0 && vobLess(rank[idx[j]], val[idx[j]], rank[idx[j-1]], val[idx[j-1]]); j-- {
+			idx[j], idx[j-1] = idx[j-1], idx[j]
+		}
+	}
+	rt.Assert("sort/size", ob.ListSize() == n && ob.NamedSize() == 1)
+	for i := 0; i < n && i < ob.ListSize(); i++ {
+		rt.Observe("pos", idx[i])
+		rt.Assert("sort/stable-order", ob.ListGet(i) == in[idx[i]])
+	}
+	for i := 1; i < ob.ListSize(); i++ {
+		rt.Assert("sort/ordered-by-compare", ob.ListGet(i-1).Compare(ob.ListGet(i)) <= 0)
+	}
+}
+
+// C36 read-only: every mutator of a read-only object or record panics and changes nothing;
+// members of a read-only object are read-only too; a copy is modifiable and independent.
+//
+//symgo:harness prop=C36 tier=quick shards=8 timeout=300 bounds=object_or_record;state:0..2_list_members+0..2_named_members;every_mutator_with_enumerated_keys;nested_member_objects_one_level outside=concurrent_objects;database_records
+func VerifC36ReadOnly() {
+	isRec := rt.Pick("record", 2) == 1
+	var c Container
+	var ob *SuObject
+	if isRec {
+		r := NewSuRecord()
+		c, ob = r, &r.ob
+	} else {
+		ob = &SuObject{}
+		c = ob
+	}
+	_, m := vobBuild(c, 2, 2)
+	var child *SuObject
+	op := rt.Pick("op", 17)
+	if op >= 15 {
+		// a member object (in the list or named)
+		child = SuObjectOf(SuInt(1))
+		if op == 15 {
+			c.Add(child)
+		} else {
+			ob.Set(SuStr("child"), child)
+		}
+	}
+	c.SetReadOnly()
+	rt.Assert("readonly/flag", c.IsReadOnly())
+	k := vobKey("k", len(m.list))
+	v := vobVal("v")
+	mayReturn := false // popping an empty list has nothing to change
+	panicked := rt.Try(func() {
+		switch op {
+		case 0:
+			c.Add(IntVal(v))
+		case 1:
+			c.Insert(k, IntVal(v))
+		case 2:
+			if isRec {
+				c.(*SuRecord).Set(IntVal(k), IntVal(v))
+			} else {
+				ob.Set(IntVal(k), IntVal(v))
+			}
+		case 3:
+			c.Put(nil, IntVal(k), IntVal(v))
+		case 4:
+			c.Delete(nil, IntVal(k))
+		case 5:
+			c.Erase(nil, IntVal(k))
+		case 6:
+			c.DeleteAll()
+		case 7:
+			mayReturn = len(m.list) == 0
+			ob.PopFirst()
+		case 8:
+			mayReturn = len(m.list) == 0
+			ob.PopLast()
+		case 9:
+			ob.Sort(nil, False)
+		case 10:
+			ob.Unique()
+		case 11:
+			ob.Reverse()
+		case 12:
+			ob.SetDefault(IntVal(v))
+		case 13:
+			if isRec {
+				c.(*SuRecord).Clear()
+			} else {
+				ob.deleteAll()
+			}
+		case 14:
+			if _, ok := m.get(k); !ok {
+				mayReturn = true // nothing to update (member not found is reported instead)
+			}
+			c.GetPut(nil, IntVal(k), IntVal(v), OpAdd, false)
+		case 15, 16:
+			child.Add(IntVal(v))
+		}
+	})
+	rt.Reach("tried")
+	rt.Observe("panicked", panicked)
+	if !mayReturn {
+		rt.Assert("readonly/mutator-rejected", panicked)
+	}
+	if op >= 15 {
+		rt.Assert("readonly/member-unchanged", child.Size() == 1)
+		return
+	}
+	vobCheck("readonly/unchanged", ob, m)
+	// a copy can be modified and does not share with the original
+	cp := c.Copy()
+	rt.Assert("readonly/copy-modifiable", !cp.IsReadOnly())
+	cp.Add(IntVal(v))
+	mc := m.clone()
+	mc.add(v)
+	vobCheck("readonly/copy", cp.ToObject(), mc)
+	vobCheck("readonly/unchanged-by-copy", ob, m)
 }
